@@ -56,68 +56,17 @@ theorem walk_append (prefixes px : List (Option Nat)) (frames fx : List Nat) (hl
           simp only
           rw [ih q (by omega)]
 
-/-! ### the stack table is a faithful trie -/
-
-/-- the index map agrees with the rows, and every row can be found through it (so no row is stored
-twice) -/
-def StCanon (st : StackTable) : Prop :=
-  (∀ kv ∈ st.index, st.prefixes[kv.2]? = some kv.1.1 ∧ st.frames[kv.2]? = some kv.1.2) ∧
-  (∀ (v : Nat) (pre : Option Nat) (f : Nat), st.prefixes[v]? = some pre → st.frames[v]? = some f →
-    alookup st.index (pre, f) = some v)
-
-theorem StCanon.empty : StCanon {} :=
-  ⟨fun _ h => (nomatch h), by intro v pre f h; simp at h⟩
-
-theorem StackTable.indexFor_canon (t : StackTable) (pre : Option Nat) (frame nFrames : Nat)
-    (h : StInv nFrames t) (hc : StCanon t) : StCanon (t.indexFor pre frame).1 := by
-  obtain ⟨a1, _, _, a4⟩ := h
-  unfold StackTable.indexFor
-  cases hl : alookup t.index (pre, frame) with
-  | some s => exact hc
-  | none =>
-    simp only
-    constructor
-    · intro kv hkv
-      simp only [List.mem_cons] at hkv
-      rcases hkv with rfl | hkv
-      · simp [a1]
-      · have hv := a4 kv hkv
-        obtain ⟨h1, h2⟩ := hc.1 kv hkv
-        rw [List.getElem?_append_left hv, List.getElem?_append_left (by omega)]
-        exact ⟨h1, h2⟩
-    · intro v pre' f' hp hf
-      simp only [alookup]
-      by_cases hv : v < t.prefixes.length
-      · rw [List.getElem?_append_left hv] at hp
-        rw [List.getElem?_append_left (by omega)] at hf
-        have hold := hc.2 v pre' f' hp hf
-        split
-        · rename_i he
-          rw [← he, hl] at hold
-          cases hold
-        · exact hold
-      · have hv' : t.prefixes.length ≤ v := by omega
-        rw [List.getElem?_append_right hv'] at hp
-        rw [List.getElem?_append_right (by omega)] at hf
-        cases hk : v - t.prefixes.length with
-        | zero =>
-          rw [hk] at hp
-          rw [a1, hk] at hf
-          simp only [List.getElem?_cons_zero, Option.some.injEq] at hp hf
-          subst hp; subst hf
-          have : v = t.prefixes.length := by omega
-          simp [this]
-        | succ k => rw [hk] at hp; simp at hp
+/-! ### the stack table is a faithful trie (`StCanon`, part of `StInv`) -/
 
 /-- the returned stack denotes the parent's frames followed by the frame -/
 theorem StackTable.indexFor_walk (t : StackTable) (pre : Option Nat) (frame nFrames : Nat)
-    (h : StInv nFrames t) (hc : StCanon t) (hp : ∀ q, pre = some q → q < t.prefixes.length) :
+    (h : StInv nFrames t) (hp : ∀ q, pre = some q → q < t.prefixes.length) :
     walk (t.indexFor pre frame).1.prefixes (t.indexFor pre frame).1.frames ((t.indexFor pre frame).2 + 1)
         (t.indexFor pre frame).2 =
       match pre with
       | none => some [frame]
       | some q => (walk t.prefixes t.frames (q + 1) q).map (· ++ [frame]) := by
-  obtain ⟨a1, a2, a3, a4⟩ := h
+  obtain ⟨a1, a2, a3, a4, hc⟩ := h
   unfold StackTable.indexFor
   cases hl : alookup t.index (pre, frame) with
   | some s =>
@@ -151,17 +100,17 @@ theorem StackTable.indexFor_stable (t : StackTable) (pre : Option Nat) (frame nF
     (h : StInv nFrames t) (i : Nat) (hi : i < t.prefixes.length) :
     walk (t.indexFor pre frame).1.prefixes (t.indexFor pre frame).1.frames (i + 1) i =
       walk t.prefixes t.frames (i + 1) i := by
-  obtain ⟨a1, _, a3, _⟩ := h
+  obtain ⟨a1, _, a3, _, _⟩ := h
   unfold StackTable.indexFor
   cases alookup t.index (pre, frame) with
   | some s => rfl
   | none => exact walk_append _ _ _ _ a1 a3 _ i hi
 
 /-- different rows denote different frame lists: each call stack is interned exactly once -/
-theorem walk_injective (t : StackTable) (nFrames : Nat) (h : StInv nFrames t) (hc : StCanon t) :
+theorem walk_injective (t : StackTable) (nFrames : Nat) (h : StInv nFrames t) :
     ∀ (i j : Nat), i < t.prefixes.length → j < t.prefixes.length →
       walk t.prefixes t.frames (i + 1) i = walk t.prefixes t.frames (j + 1) j → i = j := by
-  obtain ⟨a1, _, a3, _⟩ := h
+  obtain ⟨a1, _, a3, _, hc⟩ := h
   intro i
   induction i using Nat.strongRecOn with
   | _ i ih =>
